@@ -65,7 +65,7 @@ def cells(tier):
                                             recurring=recurring, forced=None))
         # forced / plain retry() through the message API at the budget boundary
         for n in (0, 1, 2):
-            for api in ("retry", "force_retry"):
+            for api in ("retry", "force_retry", "force_then_fail"):
                 out.append(dict(kind=kind, n=n, first_ok=None, fkind="exception", pol="f1", recurring=False, forced=api))
     return out
 
@@ -92,6 +92,11 @@ def execute(cell):
                     if k <= n + 1:  # two forced retries beyond the budget, then stop
                         await m.force_retry()
                     await m.nack()
+                elif cell["forced"] == "force_then_fail":
+                    if k <= n + 1:  # forced beyond the budget, then an ordinary failure
+                        await m.force_retry()
+                    actor_log(w, mid, "fail")
+                    raise ValueError("ordinary failure above the budget")
                 else:
                     await m.retry()  # raises ValueError once the budget is spent -> failure
             ok = cell["first_ok"] is not None and k >= cell["first_ok"]
@@ -132,7 +137,7 @@ def execute(cell):
     first = [s for s in starts if s[1]["sched"] == 0]
     later = [s for s in starts if s[1]["sched"] > 0]
     counters = [s[1]["tried"] for s in first]
-    if cell["forced"] == "force_retry":
+    if cell["forced"] in ("force_retry", "force_then_fail"):
         want_counters = list(range(n + 3))
     elif cell["forced"] == "retry":
         want_counters = list(range(n + 1))
@@ -160,7 +165,7 @@ def execute(cell):
     # end of the chain
     ents = res.obs.get("m0", [])
     places = sorted((e["place"], e["params"]["tried"] if e["params"] else None) for e in ents)
-    if cell["forced"] == "force_retry":
+    if cell["forced"] in ("force_retry", "force_then_fail"):
         want_end = "dead"
     elif cell["recurring"]:
         want_end = "recurring"
